@@ -26,7 +26,11 @@ def find_method(crate, adt, name):
             and not f.assoc.get('trait')]
 
 
-def typestate_paths(crate, fn, adt_path, initial, limit=4000):
+def _ts_rec(calls, S, blocks, end):
+    return {'calls': [c_ for c_ in calls if c_[0] != 'W'], 'writes': [(c_[1], c_[2]) for c_ in calls if c_[0] == 'W'], 'final': S, 'blocks': set(blocks), 'end': end}
+
+
+def typestate_paths(crate, fn, adt_path, initial, limit=4000, _depth=0):
     """Abstract interpretation of a resolver function for one initial state of *self.
 
     Abstract state: the variant currently stored in *self, and for every local that holds a value of an enum (a resolver moved out
@@ -43,6 +47,8 @@ def typestate_paths(crate, fn, adt_path, initial, limit=4000):
 
     def is_self(place):
         return place.get('l') == 1 and place.get('p') == ['*']
+    pinned = str(fn.locals[1]).startswith('core::pin::Pin<&')
+    from rules.facts import is_identity_call as _idc
 
     def self_ref(operand, known_refs):
         # a (re)borrow of *self: `&mut *_1`, or a copy/move of such a borrow
@@ -60,7 +66,7 @@ def typestate_paths(crate, fn, adt_path, initial, limit=4000):
             if st['k'] != 'assign':
                 continue
             d, rv = st['d'], st['rv']
-            if is_self(d):
+            if is_self(d) or (d.get('p') == ['*'] and L.get(d.get('l')) == 'REF-SELF'):
                 # *self = <value>
                 if rv['k'] == 'use' and not rv['a'].get('p') and isinstance(L.get(rv['a'].get('l')), tuple) and L[rv['a']['l']][0] == adt_path:
                     S = L[rv['a']['l']][1]
@@ -68,6 +74,7 @@ def typestate_paths(crate, fn, adt_path, initial, limit=4000):
                     S = rv['variant']
                 else:
                     S = '?'
+                calls = calls + (('W', bb, S),)
                 continue
             if d['p']:
                 continue
@@ -76,10 +83,14 @@ def typestate_paths(crate, fn, adt_path, initial, limit=4000):
                 L[l] = (norm(rv['adt']), rv['variant'], rv.get('vidx'))
             elif rv['k'] == 'ref' and is_self(rv['a']):
                 L[l] = 'REF-SELF'
+            elif rv['k'] == 'ref' and pinned and rv['a'].get('l') == 1 and not rv['a'].get('p'):
+                L[l] = 'REF-SELF'     # `&mut self` of a `self: Pin<&mut Self>` method stands for the reference to *self
             elif rv['k'] == 'ref' and rv['a'].get('p') == ['*'] and L.get(rv['a'].get('l')) == 'REF-SELF':
                 L[l] = 'REF-SELF'
             elif rv['k'] == 'use' and not rv['a'].get('p') and rv['a'].get('l') in L:
                 L[l] = L[rv['a']['l']]
+            elif rv['k'] == 'use' and rv['a'].get('o') == 'const' and rv['a'].get('v') is not None and rv['a'].get('t') in ('bool', 'u8', 'u32', 'usize', 'isize', 'i32'):
+                L[l] = ('#const', rv['a']['v'])      # `matches!(self, Sent(_))` compiles to a bool set on each arm of the state test
             elif rv['k'] == 'use' and rv['a'].get('l') == 1 and not rv['a'].get('p'):
                 L[l] = 'REF-SELF'
             else:
@@ -91,6 +102,7 @@ def typestate_paths(crate, fn, adt_path, initial, limit=4000):
                 newv = L.get(t['args'][1].get('l'))
                 old = S
                 S = newv[1] if isinstance(newv, tuple) and newv[0] == adt_path else '?'
+                calls = calls + (('W', bb, S),)
                 if not t['d']['p']:
                     L[t['d']['l']] = (adt_path, old, vidx.get(old))
             elif call_matches(t, ['core::mem::take']) and t['args'] and (L.get(t['args'][0].get('l')) == 'REF-SELF'):
@@ -99,24 +111,47 @@ def typestate_paths(crate, fn, adt_path, initial, limit=4000):
                 S = '?'
             elif call_matches(t, ['core::mem::swap']):
                 S = '?'
+            elif _idc(t) is not None and t.get('args') and not t['args'][0].get('p') and \
+                    (L.get(t['args'][0].get('l')) == 'REF-SELF' or (pinned and t['args'][0].get('l') == 1)) and not t['d']['p']:
+                # Pin::as_mut / get_mut / deref_mut of the reference to *self
+                L[t['d']['l']] = 'REF-SELF'
             else:
+                sub = None
+                if _depth < 2 and t.get('args') and not t['args'][0].get('p') and \
+                        (L.get(t['args'][0].get('l')) == 'REF-SELF' or t['args'][0].get('l') == 1):
+                    # a method of the same type given *self: its own paths from the current state (only when it reads or writes the state)
+                    cal = norm(t.get('resolved') or t.get('callee') or '')
+                    gs = [g_ for g_ in crate.built if g_.npath == cal and g_.kind == 'AssocFn' and path_matches(g_.assoc.get('self_adt'), adt_path)
+                          and not g_.assoc.get('trait') and g_.path != fn.path]
+                    if len(gs) == 1 and S in vidx:
+                        sub = [p_ for p_ in typestate_paths(crate, gs[0], adt_path, S, limit, _depth + 1) if p_['end'] == 'return']
+                if sub:
+                    if not t['d']['p']:
+                        L.pop(t['d']['l'], None)
+                    if t.get('tg') is not None:
+                        for p_ in sub:
+                            inner = tuple((bb, x[1]) for x in p_['calls']) + tuple(('W', bb, x[1]) for x in p_['writes'])
+                            work.append((t['tg'], p_['final'], frozenset(L.items()), calls + inner, blocks))
+                    continue
                 if call_matches(t, CLOSURE_CALLS):
                     calls = calls + ((bb, S),)
                 if not t['d']['p']:
                     L.pop(t['d']['l'], None)
             if any(pb == bb for pb, kk, dd, tt in panic_sites(fn)) and t.get('tg') is None:
-                out.append({'calls': list(calls), 'final': S, 'blocks': set(blocks), 'end': 'panic'})
+                out.append(_ts_rec(calls, S, blocks, 'panic'))
                 continue
             if t.get('tg') is None:
-                out.append({'calls': list(calls), 'final': S, 'blocks': set(blocks), 'end': 'diverge'})
+                out.append(_ts_rec(calls, S, blocks, 'diverge'))
                 continue
             work.append((t['tg'], S, frozenset(L.items()), calls, blocks))
             continue
         if k == 'return':
-            out.append({'calls': list(calls), 'final': S, 'blocks': set(blocks), 'end': 'return'})
+            out.append(_ts_rec(calls, S, blocks, 'return'))
             continue
         if k == 'switch':
             feasible = None
+            if not t['a'].get('p') and isinstance(L.get(t['a'].get('l')), tuple) and L[t['a']['l']][0] == '#const':
+                feasible = L[t['a']['l']][1]
             for o in origins(fn, t['a']):
                 if o.kind == 'rvalue' and o.stmt['rv']['k'] == 'discr':
                     pl = o.stmt['rv']['a']
@@ -134,7 +169,7 @@ def typestate_paths(crate, fn, adt_path, initial, limit=4000):
             continue
         succs = fn.succ(bb)
         if not succs:
-            out.append({'calls': list(calls), 'final': S, 'blocks': set(blocks), 'end': 'diverge'})
+            out.append(_ts_rec(calls, S, blocks, 'diverge'))
         for s2 in succs:
             work.append((s2, S, frozenset(L.items()), calls, blocks))
     return out
